@@ -9,7 +9,7 @@ PROP = dict(
          "recorded from such runs (C17.hist.*); non-trivial = at least two operations overlapped in real time on a shared key / on "
          "the semaphore (measured per run); distinct = distinct case line",
     trusted=["the transition systems of Model/C17.lean are hand-written after the Go code; they are tied to it by (a) the regenerated "
-             "synchronisation skeletons (gen/c17sync.go -> Gen/SyncC17.lean, theorems skel_*), (b) schedule-independent summaries of "
+             "synchronisation skeletons in path-tree normal form (gen/c17sync.go + gen/nfskel.go -> Gen/SyncC17.lean, theorems skel_*; helpers, closures and the stored loader object inlined, operands resolved through go/types, select cases sorted), (b) schedule-independent summaries of "
              "real runs compared with the model's prediction, (c) recorded histories validated by the Lean acceptors",
              "MEM-1: sync.Map Load/LoadOrStore are atomic per key; channel send/receive/close behave as in the Go spec "
              "(buffered send blocks when full, receive on a closed empty channel returns ok=false, close happens-before a receive "
